@@ -1040,16 +1040,18 @@ func c12FirstDiff(a, b []string) string {
 // ---------- case driver ----------
 
 type c12Ref struct {
-	sb      *c12SBook  // shared-string view of the book (c12_sst.go)
-	sscript []string   // shared-string script
-	sref    []string   // its outputs under default limits
-	script  []string   // live-iterator script (c12_iter.go)
-	iter    c12IterRun // its run under default limits
-	hist    string
-	res     c12Result
-	obs0    []string
-	obs1    []string
-	status  string
+	shscript []string    // sheet-operation script (c12_sheetops.go)
+	shref    c12SheetRun // its run under default limits
+	sb       *c12SBook   // shared-string view of the book (c12_sst.go)
+	sscript  []string    // shared-string script
+	sref     []string    // its outputs under default limits
+	script   []string    // live-iterator script (c12_iter.go)
+	iter     c12IterRun  // its run under default limits
+	hist     string
+	res      c12Result
+	obs0     []string
+	obs1     []string
+	status   string
 }
 
 func c12FirstTouch(hist []string) string {
@@ -1075,15 +1077,14 @@ func c12FirstTouch(hist []string) string {
 func c12Case(r *Run, bk *c12Book, xmlL, sizeL int64, hist []string, ref *c12Ref, deep bool) {
 	hs := strings.Join(hist, ",")
 	header := fmt.Sprintf("case %s %d %d %s", c12Esc(bk.id), xmlL, sizeL, hs)
-	if len(ref.script) > 0 || len(ref.sscript) > 0 {
-		is := "-"
-		if len(ref.script) > 0 {
-			is = strings.Join(ref.script, ",")
+	if len(ref.script) > 0 || len(ref.sscript) > 0 || len(ref.shscript) > 0 {
+		opt := func(x []string) string {
+			if len(x) == 0 {
+				return "-"
+			}
+			return strings.Join(x, ",")
 		}
-		header += " " + is
-		if len(ref.sscript) > 0 {
-			header += " " + strings.Join(ref.sscript, ",")
-		}
+		header += " " + opt(ref.script) + " " + opt(ref.sscript) + " " + opt(ref.shscript)
 	}
 	r.Op(header, "case")
 	res := c12Transcript(r, bk, xmlL, sizeL, hist, ref.res.sstOut, true)
@@ -1166,6 +1167,8 @@ func c12Case(r *Run, bk *c12Book, xmlL, sizeL int64, hist []string, ref *c12Ref,
 	if ref.sb != nil && ref.sb.ok {
 		c12SOracle(r, bk, ref.sb, xmlL, sizeL, ref.sscript, ref.sref, header)
 	}
+	// oracle 3e: sheet-collection operations and stream-writer rewrites (every case that opened)
+	c12SheetOracle(r, bk, xmlL, sizeL, ref.shscript, ref.shref, header)
 	// oracle 4: observations
 	obs0, left0, _ := c12Plain(bk, xmlL, sizeL, hist, 0)
 	if left0 != 0 {
@@ -1211,8 +1214,11 @@ func c12MaskSST(a string) string {
 	return a[:i] + c12Esc(c12SST) + ":*" + a[i+j:]
 }
 
-func c12MakeRef(bk *c12Book, hist []string, script []string, sb *c12SBook, sscript []string) *c12Ref {
-	ref := &c12Ref{hist: strings.Join(hist, ","), script: script, sb: sb, sscript: sscript}
+func c12MakeRef(bk *c12Book, hist []string, script []string, sb *c12SBook, sscript []string, shscript []string) *c12Ref {
+	ref := &c12Ref{hist: strings.Join(hist, ","), script: script, sb: sb, sscript: sscript, shscript: shscript}
+	if len(shscript) > 0 && bk.ok {
+		ref.shref = c12RunSheetScript(bk, 0, 0, shscript)
+	}
 	if sb != nil && sb.ok && len(sscript) > 0 {
 		ref.sref, _ = c12SRun(nil, bk, sb, 0, 0, sscript)
 	}
@@ -1341,7 +1347,8 @@ func runC12(r *Run, rng *Rng, replay string) {
 		}
 		sb := c12SPrepare(bk)
 		sscript := c12SScript(rng, sb, bi)
-		ref := c12MakeRef(bk, hist, script, sb, sscript)
+		shscript := c12SheetScript(rng, len(bk.sheets), bi)
+		ref := c12MakeRef(bk, hist, script, sb, sscript, shscript)
 		n := nLim
 		if strings.HasPrefix(id, "fix:Book1") && !thorough {
 			n = 2
@@ -1368,16 +1375,16 @@ func c12Replay(r *Run, path string) {
 			continue
 		}
 		w := strings.Fields(line)
-		if len(w) < 5 || len(w) > 7 {
+		if len(w) < 5 || len(w) > 8 {
 			continue
 		}
-		var script, sscript []string
-		if len(w) >= 6 && w[5] != "-" {
-			script = strings.Split(w[5], ",")
+		fld := func(i int) []string {
+			if len(w) > i && w[i] != "-" {
+				return strings.Split(w[i], ",")
+			}
+			return nil
 		}
-		if len(w) == 7 {
-			sscript = strings.Split(w[6], ",")
-		}
+		script, sscript, shscript := fld(5), fld(6), fld(7)
 		bk, err := c12MakeBook(c12Unesc(w[1]))
 		if err != nil {
 			r.Notes = append(r.Notes, err.Error())
@@ -1386,7 +1393,7 @@ func c12Replay(r *Run, path string) {
 		x, _ := strconv.ParseInt(w[2], 10, 64)
 		s, _ := strconv.ParseInt(w[3], 10, 64)
 		hist := strings.Split(w[4], ",")
-		ref := c12MakeRef(bk, hist, script, c12SPrepare(bk), sscript)
+		ref := c12MakeRef(bk, hist, script, c12SPrepare(bk), sscript, shscript)
 		c12Case(r, bk, x, s, hist, ref, true)
 	}
 }
